@@ -119,6 +119,56 @@ theorem optimize_samples (tfhd : Tfhd) (t : Trun) :
       repeat' split
       all_goals simp_all
 
+/-- **optimisation is idempotent**: a second `OptimizeTfhdTrun` pass over an already optimised run and tfhd changes
+    nothing (in particular it keeps `first_sample_flags`) — for every run, fresh or not -/
+theorem optimize_idem (tfhd : Tfhd) (t : Trun) (tfhd' : Tfhd) (t' : Trun)
+    (ho : optimize tfhd t = some (tfhd', t')) : optimize tfhd' t' = some (tfhd', t') := by
+  obtain ⟨hd, hs, hf, hc, ff, samples⟩ := t
+  match samples with
+  | [] => simp [optimize] at ho
+  | [s] =>
+    simp only [optimize, Option.some.injEq, Prod.mk.injEq] at ho
+    obtain ⟨rfl, rfl⟩ := ho
+    simp [optimize]
+  | s0 :: s1 :: rest =>
+    simp only [optimize] at ho
+    generalize hc1 : List.all (s0 :: s1 :: rest) (fun s => s.dur == s0.dur) = c1 at ho
+    generalize hc2 : List.all (s0 :: s1 :: rest) (fun s => s.size == s0.size) = c2 at ho
+    generalize hc3 : List.all (s1 :: rest) (fun s => s.flags == s1.flags) = c3 at ho
+    generalize hc4 : List.all (s0 :: s1 :: rest) (fun s => s.cto == 0) = c4 at ho
+    cases hd <;> cases hs <;> cases hf <;> cases hc <;> cases c1 <;> cases c2 <;> cases c3 <;> cases c4 <;>
+    · simp at ho
+      obtain ⟨rfl, rfl⟩ := ho
+      simp [optimize, hc1, hc2, hc3, hc4]
+
+theorem optimizeN_fix (tfhd : Tfhd) (t : Trun) (h : optimize tfhd t = some (tfhd, t)) (n : Nat) :
+    optimizeN n tfhd t = some (tfhd, t) := by
+  induction n with
+  | zero => rfl
+  | succ n ih => simp [optimizeN, h, ih]
+
+/-- any number n ≥ 1 of optimisation passes gives exactly the result of one pass -/
+theorem optimizeN_eq_optimize (n : Nat) (tfhd : Tfhd) (t : Trun) : optimizeN (n + 1) tfhd t = optimize tfhd t := by
+  simp only [optimizeN]
+  cases h : optimize tfhd t with
+  | none => rfl
+  | some r =>
+    obtain ⟨tfhd', t'⟩ := r
+    exact optimizeN_fix tfhd' t' (optimize_idem tfhd t tfhd' t' h) n
+
+/-- **optimised any number of times** (the same fragment encoded repeatedly, by either encoder, or optimised by the
+    caller before encoding) a fresh run still resolves to exactly the samples added -/
+theorem optimizeN_preserves (n : Nat) (tfhd : Tfhd) (trex : Trex) (t : Trun) (h : t.Fresh) (tfhd' : Tfhd) (t' : Trun)
+    (ho : optimizeN n tfhd t = some (tfhd', t')) : readBack tfhd' trex t' = t.samples := by
+  cases n with
+  | zero =>
+    simp only [optimizeN, Option.some.injEq, Prod.mk.injEq] at ho
+    obtain ⟨rfl, rfl⟩ := ho
+    exact readBack_fresh _ _ _ h
+  | succ n =>
+    rw [optimizeN_eq_optimize] at ho
+    exact optimize_preserves tfhd trex t h tfhd' t' ho
+
 /-- decode times read back are base + accumulated durations: the k-th is the base plus the durations before it -/
 theorem decodeTimes_spec (base : Nat) (ss : List Sample) (k : Nat) (hk : k < ss.length) :
     (decodeTimes base ss)[k]? = some (base + ((ss.take k).map (·.dur)).sum) := by
